@@ -188,6 +188,16 @@ func runC11(r *Rng, n int, tier string) {
 		{"bad-name", "-- name: 9a :one\nSELECT 1;\n", false, 0},
 		{"bad-name-dash", "-- name: get-a :one\nSELECT 1;\n", false, 0},
 		{"unknown-cmd", "-- name: A :lots\nSELECT 1;\n", false, 0},
+		{"near-miss-cmd-execrow", "-- name: A :execrow\nDELETE FROM authors;\n", false, 0},
+		{"near-miss-cmd-execresults", "-- name: A :execresults\nDELETE FROM authors;\n", false, 0},
+		{"near-miss-cmd-execute", "-- name: A :execute\nDELETE FROM authors;\n", false, 0},
+		{"near-miss-cmd-exec_rows", "-- name: A :exec_rows\nDELETE FROM authors;\n", false, 0},
+		{"near-miss-cmd-ones", "-- name: A :ones\nSELECT 1;\n", false, 0},
+		{"near-miss-cmd-manyy", "-- name: A :manyy\nSELECT 1;\n", false, 0},
+		{"near-miss-cmd-upper", "-- name: A :ONE\nSELECT 1;\n", false, 0},
+		{"near-miss-cmd-nocolon", "-- name: A one\nSELECT 1;\n", false, 0},
+		{"near-miss-cmd-double", "-- name: A ::one\nSELECT 1;\n", false, 0},
+		{"near-miss-cmd-empty", "-- name: A :\nSELECT 1;\n", false, 0},
 		{"missing-cmd", "-- name: A\nSELECT 1;\n", false, 0},
 		{"extra-token", "-- name: A :one please\nSELECT 1;\n", false, 0},
 		{"one-no-returning", "-- name: A :one\nUPDATE authors SET name = 'x';\n", false, 0},
